@@ -565,12 +565,21 @@ func init() {
 						f("Extend(p) is not the union with the point's box", map[string]interface{}{"p": sv(p), "extend": sv(ext)})
 					}
 					// extending the box of a value without vertices: the result holds the point, is not empty, and extending again
-					// changes nothing (whether it must be exactly the point's box is not demanded: see DESIGN section 12, round 12)
+					// changes nothing (and it is exactly the point's box: on the unchanged tree that fails for points outside [-1,1]^2, known finding C06/extend-empty-box)
 					for _, e := range []orb.Bound{empty, orb.LineString{}.Bound(), orb.Polygon{}.Bound()} {
 						x := e.Extend(p)
 						c.Eval()
 						if !(x.Min[0] <= p[0] && p[0] <= x.Max[0] && x.Min[1] <= p[1] && p[1] <= x.Max[1]) || x.IsEmpty() || !x.Contains(p) || x.Extend(p) != x {
 							f("extending an empty box by a point does not give a non-empty box that contains the point (or extending twice differs)", map[string]interface{}{"empty_box": sv(e), "p": sv(p), "extend": sv(x), "extend_twice": sv(x.Extend(p))})
+						}
+						// Extend(p) is the union with the point's box, and the empty box is the identity of Union: {p, p}
+						if pb := (orb.Bound{Min: p, Max: p}); x != pb {
+							leak := orb.Bound{Min: orb.Point{math.Min(e.Min[0], p[0]), math.Min(e.Min[1], p[1])}, Max: orb.Point{math.Max(e.Max[0], p[0]), math.Max(e.Max[1], p[1])}}
+							key := ""
+							if e.IsEmpty() && x == leak && x.Contains(p) && e.Union(pb) == pb {
+								key = "C06/extend-empty-box" // the empty sentinel (1,1)/(-1,-1) leaks into the result; Union handles it (c124612), Extend does not
+							}
+							c.Fail(key, "extending an empty box by a point is not the point's box (the union with the point's box)", map[string]interface{}{"empty_box": sv(e), "p": sv(p), "extend": sv(x), "union_with_the_points_box": sv(e.Union(pb))})
 						}
 					}
 					inside := a.Min[0] <= p[0] && p[0] <= a.Max[0] && a.Min[1] <= p[1] && p[1] <= a.Max[1]
